@@ -14,7 +14,7 @@ RULE = ("call lists of length 0..12 over a stateful reference object (counter, l
         "(call list, mode, serializer, server); non-trivial = list has >= 2 calls")
 ASSUMPTIONS = ["oneway-marked methods and iterator-returning methods are not batched (documented as unsupported)",
                "an exposure failure may surface at submission instead of at its position (the statement allows both)"]
-REQUIRED_REACH = ["batch_equal", "failure_at_position", "failure_at_submit", "oneway_equal", "state_compared"]
+REQUIRED_REACH = ["batch_equal", "failure_at_position", "failure_at_submit", "oneway_equal", "state_compared", "reused_batchproxy_equal"]
 SHARD_TIMEOUT = {"quick": 200, "thorough": 2400}
 
 
@@ -115,8 +115,8 @@ def run_sequential(P, py, calls):
     return results, None
 
 
-def run_batch(P, px, calls, oneway):
-    b = P.client.BatchProxy(px)
+def run_batch(P, px, calls, oneway, b=None):
+    b = b if b is not None else P.client.BatchProxy(px)
     for name, args, kwargs in calls:
         getattr(b, name)(*args, **kwargs)
     results = []
@@ -194,6 +194,57 @@ def check_case(fx, Ref, calls, oneway, sername, rec, n):
     rec.count("batch_equal")
 
 
+SUBMIT_FAILURES = ("hidden", "_priv", "doesnotexist")
+
+
+def check_reuse(fx, Ref, batches, sername, rec, n):
+    """several batches submitted through ONE BatchProxy (re-use is a documented feature) against the same calls made one by one:
+    every batch must consist of exactly the calls queued since the previous submission"""
+    P = fx.P
+    idx, idy = "rx%d" % n, "ry%d" % n
+    X, Y = Ref(), Ref()
+    fx.daemon.register(X, idx)
+    fx.daemon.register(Y, idy)
+    pay = {"batches": batches, "serializer": sername, "servertype": fx.servertype}
+    rec.case(("reuse", repr(batches), sername, fx.servertype), nontrivial=True, sample=pay if rec.evaluations % 300 == 7 else None)
+    outcomes = []
+    try:
+        with fx.proxy(idx, serializer=sername) as px, fx.proxy(idy, serializer=sername) as py:
+            b = P.client.BatchProxy(px)
+            for calls, oneway in batches:
+                sres, sexc = run_sequential(P, py, calls)
+                bres, bexc, where, ret = run_batch(P, px, calls, oneway, b)
+                dumpx = px._pyroInvoke("dump", (), {})
+                dumpy = py._pyroInvoke("dump", (), {})
+                outcomes.append((calls, oneway, sres, sexc, bres, bexc, where, ret, dumpx, dumpy))
+    except Exception as x:
+        rec.inconc("harness call failed: %r" % (x,))
+        return
+    finally:
+        fx.daemon.unregister(X)
+        fx.daemon.unregister(Y)
+    for k, (calls, oneway, sres, sexc, bres, bexc, where, ret, dumpx, dumpy) in enumerate(outcomes):
+        if sername == "marshal" and bexc is not None and type(bexc) is ValueError and "unmarshallable" in str(bexc):
+            rec.violation("marshal-batch-member-exception-unmarshallable", "marshal: batch %d of a re-used BatchProxy: %r" % (k, bexc), pay)
+            return
+        what = None
+        if oneway:
+            if ret is not None or bexc is not None:
+                what = "oneway batch returned %r / raised %r" % (ret, bexc)
+        elif (sexc is None) != (bexc is None) or (sexc is not None and not same_exc(sexc, bexc)):
+            what = "one by one raised %r after %d results; the batch raised %r (%s) after %d results" % (sexc, len(sres), bexc, where, len(bres))
+        elif where != "submit" and not gen.deep_eq(bres, sres):
+            what = "one by one results %r, batch results %r" % (sres, bres)
+        if what is None and not gen.deep_eq(dumpx, dumpy):
+            what = "object after the batch %r, after the same calls one by one %r" % (dumpx, dumpy)
+        if what is not None:
+            rec.violation("reused-batchproxy-batch-differs" if k else "batch-results-differ",
+                          "batch %d of %d submitted through one BatchProxy (%s; earlier batches: %r): %s" % (
+                              k + 1, len(outcomes), "oneway" if oneway else "normal", [(len(c), "oneway" if o else "normal") for c, o in batches[:k]], what), pay)
+            return
+    rec.count("reused_batchproxy_equal")
+
+
 def plan(tier, seed):
     shards = []
     per = 60 if tier == "quick" else 500
@@ -220,6 +271,21 @@ def run_shard(shard, rec):
                 calls = gen_calls(r, length, fail_at)
                 n += 1
                 check_case(fx, Ref, calls, r.random() < 0.3, shard["serializer"], rec, n)
+        for _ in range(max(10, shard["n"] // 2)):
+            if rec.should_stop(30):
+                break
+            batches = []
+            for k in range(r.randrange(2, 4)):
+                length = r.randrange(1, 6)
+                while True:
+                    calls = gen_calls(r, length, r.choice([None, None] + list(range(length))))
+                    # (what a BatchProxy still holds after a submission that itself failed is not specified: such batches only come last)
+                    if k == 2 or not any(c[0] in SUBMIT_FAILURES for c in calls):
+                        break
+                batches.append((calls, r.random() < 0.4))
+            batches = [b for i, b in enumerate(batches) if i == len(batches) - 1 or not any(c[0] in SUBMIT_FAILURES for c in b[0])]
+            n += 1
+            check_reuse(fx, Ref, batches, shard["serializer"], rec, n)
         for kind, text in fixture.take_faults():
             if kind == "thread-exception":
                 rec.violation("server-thread-fault", text, None)
@@ -232,6 +298,9 @@ def replay(payload, rec):
     Ref = make_ref_class(P)
     fx = fixture.Fixture(servertype=payload["servertype"], COMMTIMEOUT=0.0)
     try:
-        check_case(fx, Ref, payload["calls"], payload["oneway"], payload["serializer"], rec, 1)
+        if "batches" in payload:
+            check_reuse(fx, Ref, [(c, o) for c, o in payload["batches"]], payload["serializer"], rec, 1)
+        else:
+            check_case(fx, Ref, payload["calls"], payload["oneway"], payload["serializer"], rec, 1)
     finally:
         fx.stop()
